@@ -100,6 +100,132 @@ def r2(ctx: Ctx) -> None:
     check_triggers(ctx, None)
 
 
+def _dispatch_loops(ctx: Ctx, tf, q: str, p: Path, t: str) -> None:
+    """per selected hook: one handler call, market-step triggers under the class/instance filter"""
+    lps = loops(p)
+    for l in lps:
+        el = ("sym", f"{l.target[0]}∈{l.loopid}")
+        gen_src = [e for e in calls(p, into_loops=False) if e.term == l.iter and e.site.targets and any(isinstance(x, (ast.Yield, ast.YieldFrom)) for t_ in e.site.targets for x in ast.walk(t_.node))]
+        if gen_src:
+            ctx.unrec(tf, l.node, f"{q}: hooks are drawn from a generator helper", "selection and filtering happen inside a generator function, which the path evaluator does not inline")
+            continue
+        for bp in l.paths:
+            hs = [e for e in calls(bp) if e.name.startswith("hooked_")]
+            filt = [(c, pol) for c, pol, _ in bp.conds if strip_ver(c)[0] == "call" and key(strip_ver(c)[1]) == "self._check_event_class_and_instance"]
+            other = [c for c, pol, _ in bp.conds if (c, pol) not in [(x, y) for x, y in filt]]
+            if t == "market":
+                okf = len(filt) == 1 and not other
+                if okf:
+                    c, pol = filt[0]
+                    a = dict(strip_ver(c)[3])
+                    okf = key(a.get("check_object", NONE)) == tf.params[1] and a.get("class_requirement") == ("attr", el, "specific_class") and a.get("instance_requirement") == ("attr", el, "specific_instance")
+                    okf = okf and (len(hs) == 1) == pol
+                ctx.check(okf, tf, l.node, f"{q}: handler runs iff the hook's class/instance filter accepts the market", "if _check_event_class_and_instance(market, hook.specific_class, hook.specific_instance): handler", bp.describe()[:160])
+            else:
+                ctx.check(len(hs) == 1 and not bp.conds and bp.exit[0] == "fall", tf, l.node, f"{q}: one unconditional handler call per selected hook", "exactly one call, no filter", f"{len(hs)} call(s), {len(bp.conds)} condition(s)")
+
+
+def _selection_by_pieces(ctx: Ctx, tf, q: str, p: Path, slot: Term, tsrc: str, none_in, time_in) -> Optional[bool]:
+    """selection written with hooks.get(key, []) (alone or mixed with membership tests): the walked list is
+    built from pieces, each `hooks[K]` under `K in hooks` or `hooks.get(K, [])`.  True = as specified,
+    False = reported, None = form not understood"""
+    lps = loops(p)
+    if len(lps) != 1 or lps[0].iter is None:
+        return None
+    it = lps[0].iter
+
+    def piece(x: Term):
+        x = strip_ver(x)
+        if x[0] == "star":
+            x = x[1]
+        if x[0] == "sub" and x[1] == slot:
+            return ("sub", x[2])
+        if x[0] == "call" and x[1] == ("attr", slot, "get") and len(x[2]) == 2:
+            d = x[2][1]
+            lit = alloc_literal_any(p, d)
+            if d == ("list", ()) or (lit is not None and lit[0] in ("list", "tuple") and len(lit[1]) == 0):
+                return ("get", x[2][0])
+        return None
+
+    pieces = []
+    base = strip_ver(it)
+    label0 = f"{q}: selecting hooks never changes the registered buckets"
+
+    def flat_plus(x: Term):
+        return flat_plus(x[2]) + flat_plus(x[3]) if x[0] == "bin" and x[1] == "+" else [x]
+
+    parts = flat_plus(base)
+    raw_first = piece(parts[0]) if parts else None
+    if raw_first is not None and (len(parts) > 1 or any(e.kind == "call" and e.name == "extend" and e.recv == it for e in p.events)):
+        # the walked list starts as the registered bucket itself (no copy) and is then extended
+        inplace = any(e.kind == "call" and e.name == "extend" and e.recv == it for e in p.events) or any(isinstance(n_, ast.AugAssign) and isinstance(n_.op, ast.Add) for n_ in ast.walk(tf.node))
+        if inplace:
+            ctx.violated(tf, tf.node, label0, "start from a new list (or a copy) before adding the timed hooks", f"{short(parts[0])} is the registered list itself and is extended in place: timed hooks stay in the all-times bucket")
+            return False
+    if len(parts) > 1:
+        for x in parts:
+            pc = piece(x)
+            if pc is None:
+                return None
+            pieces.append(pc)
+    elif base[0] == "call" and key(base[1]) in ("list", "tuple") and len(base[2]) == 1:
+        pc = piece(base[2][0])
+        if pc is None:
+            return None
+        pieces.append(pc)
+    elif raw_first is not None:
+        pieces.append(raw_first)
+    else:
+        lit = alloc_literal_any(p, it)
+        if lit is None or lit[0] != "list":
+            return None
+        for x in lit[1]:
+            pc = piece(x) if x[0] == "star" else None
+            if pc is None:
+                return None
+            pieces.append(pc)
+    for e in p.events:
+        if e.kind == "call" and e.name == "extend" and e.recv == it and e.args:
+            pc = piece(e.args[0])
+            if pc is None:
+                return None
+            pieces.append(pc)
+    label = f"{q}: targets = hooks[None] ++ hooks[time]"
+    nones = [pc for pc in pieces if pc[1] == NONE]
+    times = [pc for pc in pieces if pc[1] != NONE]
+    ok = True
+    for mode, K in pieces:
+        if mode == "sub":
+            dec = none_in if K == NONE else [pol for k2, pol in time_in if k2 == K]
+            if dec != [True]:
+                ctx.violated(tf, tf.node, label, "hooks[K] only after `K in hooks` was decided true", f"hooks[{short(K)}] read without that decision")
+                ok = False
+    want_none = not (none_in == [False])
+    want_time = not (time_in and time_in[0][1] is False)
+    if (len(nones) == 1) != want_none or len(nones) > 1:
+        ctx.violated(tf, tf.node, label, "the all-times bucket is taken exactly once (when present)", f"{len(nones)} time(s)")
+        ok = False
+    if (len(times) == 1) != want_time or len(times) > 1:
+        ctx.violated(tf, tf.node, label, "the bucket of the occurrence's time is taken exactly once (when present)", f"{len(times)} time(s)")
+        ok = False
+    for mode, K in times:
+        if not (poly_of(K) == tsrc or key(K) == tsrc):
+            ctx.violated(tf, tf.node, f"{q}: occurrence time", tsrc, short(K))
+            ok = False
+    if nones and times and pieces.index(nones[0]) > pieces.index(times[0]):
+        ctx.violated(tf, tf.node, label, "all-times hooks first", "timed hooks first")
+        ok = False
+    if ok:
+        ctx.holds(tf, tf.node, label, "hooks.get(None, []) ++ hooks.get(time, [])", " ++ ".join(f"{m}:{short(K)}" for m, K in pieces))
+    return ok
+
+
+def alloc_literal_any(p: Path, t: Term):
+    from ..kit import alloc_literal
+
+    return alloc_literal(p, t)
+
+
 def check_registration(ctx: Ctx) -> None:
     """C13.R4 as a premise of the properties whose events rely on being registered as declared"""
     r4(ctx)
@@ -122,10 +248,16 @@ def check_triggers(ctx: Ctx, only) -> None:
             time_in = [(strip_ver(c)[2], pol) for c, pol, _ in p.conds if strip_ver(c)[0] == "cmp" and strip_ver(c)[1] == "in" and strip_ver(c)[2] != NONE and strip_ver(c)[3] == slot]
             ok = len(none_in) == 1 and len(time_in) == 1
             if not ok:
-                if not none_in and not time_in:
-                    ctx.unrec(tf, tf.node, f"{q}: selection of the all-times and the timed bucket", "buckets are not selected through `None in hooks` / `time in hooks`; this form of selection is not modelled")
-                else:
-                    ctx.violated(tf, tf.node, f"{q}: membership tests for the all-times and the timed bucket", "`None in hooks` and `time in hooks` each decided once", p.describe()[:200])
+                verdict = _selection_by_pieces(ctx, tf, q, p, slot, tsrc, none_in, time_in)
+                if verdict is None:
+                    if not none_in and not time_in:
+                        ctx.unrec(tf, tf.node, f"{q}: selection of the all-times and the timed bucket", "buckets are not selected through `None in hooks` / `time in hooks` / `hooks.get(key, [])`; this form of selection is not modelled")
+                    else:
+                        ctx.unrec(tf, tf.node, f"{q}: membership tests for the all-times and the timed bucket", "mixed selection form not modelled", p.describe()[:200])
+                    continue
+                if verdict is False:
+                    continue
+                _dispatch_loops(ctx, tf, q, p, t)
                 continue
             tt, tpol = time_in[0]
             ctx.check(poly_of(tt) == tsrc or key(tt) == tsrc, tf, tf.node, f"{q}: occurrence time", tsrc, poly_of(tt))
@@ -140,27 +272,8 @@ def check_triggers(ctx: Ctx, only) -> None:
             if not want and not lps and not ext and not [e for e in calls(p) if e.name.startswith("hooked_")]:
                 tgt_ok = True  # neither bucket exists: the (empty) selection is walked zero times
             ctx.check(got == want and tgt_ok, tf, tf.node, f"{q}: targets = hooks[None] ++ hooks[time] (buckets present: all-times={none_in[0]}, timed={tpol})", " ++ ".join(want) or "[]", " ++ ".join(got) or "[]")
-            for l in lps:
-                el = ("sym", f"{l.target[0]}∈{l.loopid}")
-                gen_src = [e for e in calls(p, into_loops=False) if e.term == l.iter and e.site.targets and any(isinstance(x, (ast.Yield, ast.YieldFrom)) for t_ in e.site.targets for x in ast.walk(t_.node))]
-                if gen_src:
-                    ctx.unrec(tf, l.node, f"{q}: hooks are drawn from a generator helper", "selection and filtering happen inside a generator function, which the path evaluator does not inline")
-                    continue
-                for bp in l.paths:
-                    hs = [e for e in calls(bp) if e.name.startswith("hooked_")]
-                    filt = [(c, pol) for c, pol, _ in bp.conds if strip_ver(c)[0] == "call" and key(strip_ver(c)[1]) == "self._check_event_class_and_instance"]
-                    other = [c for c, pol, _ in bp.conds if (c, pol) not in [(x, y) for x, y in filt]]
-                    if t == "market":
-                        okf = len(filt) == 1 and not other
-                        if okf:
-                            c, pol = filt[0]
-                            a = dict(strip_ver(c)[3])
-                            okf = key(a.get("check_object", NONE)) == tf.params[1] and a.get("class_requirement") == ("attr", el, "specific_class") and a.get("instance_requirement") == ("attr", el, "specific_instance")
-                            okf = okf and (len(hs) == 1) == pol
-                        ctx.check(okf, tf, l.node, f"{q}: handler runs iff the hook's class/instance filter accepts the market", "if _check_event_class_and_instance(market, hook.specific_class, hook.specific_instance): handler", bp.describe()[:160])
-                    else:
-                        ctx.check(len(hs) == 1 and not bp.conds and bp.exit[0] == "fall", tf, l.node, f"{q}: one unconditional handler call per selected hook", "exactly one call, no filter", f"{len(hs)} call(s), {len(bp.conds)} condition(s)")
-        ctx.require(seen_paths >= 4, f"{q}: expected 4 bucket combinations")
+            _dispatch_loops(ctx, tf, q, p, t)
+        ctx.require(seen_paths >= 1, f"{q}: no normal path")
     # the filter predicate itself
     f = ctx.func(CHECK)
     cases = []
@@ -214,7 +327,7 @@ def check_call_sites(ctx: Ctx, aspects) -> None:
         # fills
         ex = [e for e in evs if e.kind == "call" and calls_target(e, EXEC)]
         for x in ex:
-            walked = [l for l in loops(b.path) if l.iter == x.term]
+            walked = [l for l in loops(b.path) if l.iter == x.term or (l.iter is not None and l.iter[0] == "call" and key(l.iter[1]) == "zip" and l.iter[2] and l.iter[2][0] == x.term)]
             ctx.check(len(walked) == 1, f, x.node, f"{b.phase} {b.kind}: the fills of a round are walked once, right after the round (hooks see a fill before the next order is accepted)", "for log in <result of this _execution()>: ...", f"{len(walked)} loop(s) over the round's result within the handling of that order")
             for l in walked:
                 el = ("sym", f"{l.target[0]}∈{l.loopid}")
@@ -399,7 +512,16 @@ def r5(ctx: Ctx) -> None:
         if isinstance(n, ast.Name):
             if isinstance(n.ctx, ast.Store):
                 bound.add(n.id)
-    for n in ast.walk(cb.node):
+    # parameter defaults are evaluated when the callback is defined (inside the loop iteration): not a capture
+    body_nodes = [x for st_ in cb.node.body for x in ast.walk(st_)] if hasattr(cb.node, "body") and isinstance(cb.node.body, list) else list(ast.walk(cb.node))
+    default_bound: Dict[str, str] = {}
+    if isinstance(cb.node, (ast.FunctionDef, ast.AsyncFunctionDef)):
+        a_ = cb.node.args
+        pos_ = a_.posonlyargs + a_.args
+        for arg_, d_ in zip(pos_[len(pos_) - len(a_.defaults):], a_.defaults):
+            if isinstance(d_, ast.Name):
+                default_bound[arg_.arg] = d_.id
+    for n in body_nodes:
         if isinstance(n, ast.Name) and isinstance(n.ctx, ast.Load) and n.id not in bound and n.id not in ("self",) and n.id not in gs.module.imports and n.id not in dir(__builtins__) and n.id not in dir(__import__("builtins")):
             free.add(n.id)
     loopvars = set()
@@ -428,6 +550,9 @@ def r5(ctx: Ctx) -> None:
                                 lit = x.data["literal"]
                         defs.append(lit)
                 ok = len(defs) == 1 and defs[0] is not None and len(defs[0][1]) == 1 and defs[0][1][0][0] == ("const", pname) and defs[0][1][0][1] == made[0].term
+                if not ok and len(defs) == 1 and defs[0] is not None and len(defs[0][1]) == 0 and pname in default_bound:
+                    # def callback(_event=event): the event is bound as the parameter's default when the callback is defined
+                    ok = bp.env.get(default_bound[pname]) == made[0].term and cb.outer is not None
                 ctx.check(ok, gs, made[0].node, "each event created gets one deferred registration bound to that very event", f"pending.append(({cb.name}, {{'{pname}': <the new event>}}))", f"{len(defs)} deferred registration(s): {[short(d) if d else None for d in defs]}")
     ctx.require(n >= 1, "_generate_sessions: event construction not found")
     # the deferred calls are executed, each once, in order
